@@ -16,12 +16,27 @@ pub struct Finding {
     pub commit: String,
 }
 
+/// Load `known_findings.json` plus every `known_findings.d/*.json` next to it.
 pub fn load(path: &std::path::Path) -> Vec<Finding> {
+    let mut all = load_one(path);
+    if let Some(dir) = path.parent().map(|p| p.join("known_findings.d")) {
+        if let Ok(rd) = std::fs::read_dir(&dir) {
+            let mut files: Vec<_> = rd.flatten().map(|e| e.path()).filter(|p| p.extension().map(|e| e == "json").unwrap_or(false)).collect();
+            files.sort();
+            for f in files {
+                all.extend(load_one(&f));
+            }
+        }
+    }
+    all
+}
+
+fn load_one(path: &std::path::Path) -> Vec<Finding> {
     match std::fs::read(path) {
         Ok(b) => match serde_json::from_slice::<Vec<Finding>>(&b) {
             Ok(v) => v,
             Err(e) => {
-                eprintln!("known_findings.json unreadable ({e}); treating as empty");
+                eprintln!("{} unreadable ({e}); treating as empty", path.display());
                 Vec::new()
             }
         },
